@@ -152,6 +152,7 @@ class _Skel(object):
         self.fn = fn
         self.slots = {}          # variable name -> slot number
         self.n_mk = 0
+        self.cleaned = set()
         self.scratch_params = scratch_params
         self.output_exprs = output_exprs
 
@@ -220,6 +221,7 @@ class _Skel(object):
                     and c.func.id == '_clean_up' and len(c.args) == 1:
                 a = c.args[0]
                 if isinstance(a, ast.Name) and a.id in self.slots:
+                    self.cleaned.add(self.slots[a.id])
                     return [('clean', self.slots[a.id])]
                 if isinstance(a, ast.Name):
                     # clean-up of something this function did not create
@@ -245,8 +247,16 @@ class _Skel(object):
                 return [('try', body, self.stmts(s.finalbody))]
             return body
         if isinstance(s, ast.If):
+            live = self._live_test(s.test)
             a = self.stmts(s.body)
             b = self.stmts(s.orelse)
+            if live is not None:
+                v, positive = live
+                if not positive:
+                    a, b = b, a
+                if not a and not b:
+                    return []
+                return [('iflive', v, a, b)]
             if not a and not b:
                 return [('call',)] if self._may_raise(s.test) else []
             return [('ite', a, b)]
@@ -278,6 +288,22 @@ class _Skel(object):
             return []
         raise TranslateError('%s: statement %s not supported'
                              % (self.fn.name, type(s).__name__))
+
+    def _live_test(self, t):
+        """`<slot variable> is not None` / `is None` -> (slot, positive)"""
+        if isinstance(t, ast.Compare) and len(t.ops) == 1 \
+                and isinstance(t.left, ast.Name) \
+                and t.left.id in self.slots \
+                and isinstance(t.comparators[0], ast.Constant) \
+                and t.comparators[0].value is None \
+                and isinstance(t.ops[0], (ast.IsNot, ast.Is)):
+            v = self.slots[t.left.id]
+            if v in self.cleaned:
+                raise TranslateError(
+                    '%s: liveness test of %s after its clean-up'
+                    % (self.fn.name, t.left.id))
+            return v, isinstance(t.ops[0], ast.IsNot)
+        return None
 
     @staticmethod
     def _is_path_wrap(v, name):
@@ -312,6 +338,9 @@ def _flat(stmts):
         elif s[0] == 'ite':
             yield from _flat(s[1])
             yield from _flat(s[2])
+        elif s[0] == 'iflive':
+            yield from _flat(s[2])
+            yield from _flat(s[3])
         elif s[0] == 'loop':
             yield from _flat(s[1])
 
@@ -326,6 +355,8 @@ def _squash(stmts):
             s = ('ite', _squash(s[1]), _squash(s[2]))
         elif s[0] == 'loop':
             s = ('loop', _squash(s[1]))
+        elif s[0] == 'iflive':
+            s = ('iflive', s[1], _squash(s[2]), _squash(s[3]))
         if s[0] == 'call' and out and out[-1][0] == 'call':
             continue
         out.append(s)
@@ -374,6 +405,10 @@ def lean_stmts(stmts, indent):
             parts.append('.ite\n%s  %s\n%s  %s' % (
                 pad, lean_stmts(s[1], indent + 2),
                 pad, lean_stmts(s[2], indent + 2)))
+        elif s[0] == 'iflive':
+            parts.append('.ifLive %d\n%s  %s\n%s  %s' % (
+                s[1], pad, lean_stmts(s[2], indent + 2),
+                pad, lean_stmts(s[3], indent + 2)))
         elif s[0] == 'loop':
             parts.append('.loop\n%s  %s' % (
                 pad, lean_stmts(s[1], indent + 2)))
